@@ -6,7 +6,9 @@ import vlib
 
 PROP = "C05"
 SCALE = 2 ** 100
-VECTOR_OPS = ("grad", "gps", "sens", "sensdiv", "hess", "ahess", "pen", "penh", "penah")
+VECTOR_OPS = ("grad", "gps", "sens", "sensdiv", "ssens", "ssensdiv", "hess", "ahess", "pen", "penh", "penah",
+              "pgrad", "pgradfull", "phess", "pahess", "phessfull", "pahessfull")
+VALUE_OPS = ("val", "pval", "pvalfull")
 NEAR = [0]
 INDET = [0]
 
@@ -37,7 +39,7 @@ def compare(op, impl, model):
     if impl == "err" or model in ("err", "bad-op", "bad-bin", "<missing>") or impl == "<missing>":
         return False
     try:
-        if kind == "val":
+        if kind in VALUE_OPS:
             v, b = [_bits_to_float(t) for t in model.split()]
             x = float.fromhex(impl)
             return abs(x - v) <= b + 1e-300
@@ -77,15 +79,27 @@ def main(tier, replay):
     vlib.standard_coverage(chk, stats,
         "real PoissonLogLikelihoodWithLinearModelForMeanAndProjData through its public API (compute_objective_function, compute_sub_gradient, "
         "compute_sub_gradient_without_penalty_plus_sensitivity, get_subset_sensitivity / add_subset_sensitivity, accumulate_sub_Hessian_times_input, "
-        "add_multiplication_with_approximate_sub_Hessian) on generated geometries (8-12 detectors, 2-3 rings, span 1/3, non-TOF and TOF 3/5 bins, "
+        "add_multiplication_with_approximate_sub_Hessian, their full-data counterparts and the *_without_penalty functions) on generated geometries "
+        "(8-12 detectors, 2-3 rings, span 1/3, non-TOF and TOF 3/5 bins, "
         "ProjMatrixByBinUsingRayTracing with all 32 symmetry switch combinations, image 5/7 voxels across), additive term on/off, normalisation trivial / "
-        "FromProjData / chained / base-class efficiency table, zero_seg0_end_planes, max_segment_num_to_process, use_subset_sensitivities, use_tofsens, "
-        "every legal num_subsets and every subset. One line per (quantity, subset): per-voxel results compared with the Lean model evaluated exactly in Rat "
+        "FromProjData / chained / base-class efficiency table — for TOF data also with one factor per TOF bin (FromProjData on TOF data, a TOF table, chains of "
+        "them: is_TOF_only_norm switching use_tofsens on, `tofsens` lines) —, zero_seg0_end_planes, max_segment_num_to_process (`segrange` lines), "
+        "set_max_timing_pos_num_to_process below the maximum of the data, use_subset_sensitivities, use_tofsens, "
+        "every num_subsets and every subset: set_up's refusal of unbalanced subsets is compared with the model on independently counted viewgrams per subset "
+        "(`balance` lines). One line per (quantity, subset): per-voxel results compared with the Lean model evaluated exactly in Rat "
         "on explicit matrix rows (from a separate matrix object without symmetries/cache) with the derived bound |impl - exact| <= 4*n*2^-24*sum|terms| "
         "(n = row length(s) + number of contributions to the voxel + 10; sum|terms| taken with |P_bv| + Pmax/2 to allow for the rounding of the ray-traced "
         "matrix elements between the symmetric/cached matrix of the projector and the explicit rows); the value with the model at binary64 and the bound 4*n*2^-24*sum(|y|+|y log e|+|e|) "
-        "+ 8*2^-24*|value|. Oracle (harness, double precision, independent of the Lean model): textbook expressions on the explicit rows on the regular region, "
-        "gradient-plus-sensitivity minus gradient = sensitivity, sum over subsets = full data, penalised = unpenalised - prior share, all orders of first "
+        "+ 8*2^-24*|value|. With a QuadraticPrior attached (2 random (num_subsets, subset) per configuration): penalised subset value / gradient / Hessian "
+        "products and the full-data compute_objective_function(image), compute_gradient, accumulate_Hessian_times_input, add_multiplication_with_approximate_Hessian "
+        "are recomputed by the model from the bins and the prior's term (p* lines, bound + 16*2^-24*(|q|+|prior term|)), the *_without_penalty results of the same "
+        "object go to the unpenalised model lines. Sensitivities read from the files an identical object wrote (total, or one per subset) go to the same "
+        "`sens`/`sensdiv` model lines as computed ones. "
+        "Oracle (harness, double precision, independent of the Lean model): textbook expressions on the explicit rows on the regular region (over the requested "
+        "segment and TOF range), "
+        "gradient-plus-sensitivity minus gradient = sensitivity, sum over subsets = full data, penalised = unpenalised - prior share (subset) / - prior term (full data), "
+        "*_without_penalty on the object with a prior = result of an object without prior (bitwise), loaded sensitivities = written ones (bitwise) = P^T n, "
+        "set_up refuses exactly the unbalanced subset numbers when subset sensitivities are off, all orders of first "
         "requests give the same results (bitwise) on fresh objects whose members without initialiser are pre-set to 0 and to 1, with relative tolerance 3e-5 of "
         "sum|terms|. hist lines: ok/exception pattern of request histories against the flag machine of the model (both values of the indeterminate "
         "members accepted). distinct = distinct op lines.",
@@ -93,6 +107,12 @@ def main(tier, replay):
     chk.assumptions += ["floating point rounding is not modelled (forward error bound instead)",
                         "which viewgrams belong to a subset is taken from the library's own subset scheme (C06); the oracle checks that they partition the data",
                         "explicit matrix rows come from ProjMatrixByBinUsingRayTracing itself (row correctness is C03/C04)",
+                        "the factor of a data bin is the bin of the normalisation data with the same indices (TOF bin 0 for non-TOF normalisation data): that is the "
+                        "harness's reading of 'bin efficiencies', the model receives the factors per bin",
+                        "the TOF range used for the model lines is the one the object reports after set_up (get_max_timing_pos_num_to_process); that it is the "
+                        "requested one is checked by the oracle (class tofrange:set_max_timing_pos_num_to_process-ignored while set_up overwrites the setting)",
+                        "the prior's own value / gradient / Hessian product are taken from QuadraticPrior (C09's subject)",
+                        "set_subset_sensitivity_sptr with recompute off and no file names is refused by set_up in every configuration tried (counted, not a property clause)",
                         "MPI (distributed) paths are not built: which projector pair setup_distributable_computation received is ghost state of the model, "
                         "observable on the implementation only through the error branch"]
     if audit:
